@@ -17,6 +17,7 @@ type histPool struct {
 	accum    map[string]bool // medium id -> carries accumulating component sources
 	chainIDs []string
 	singles  []string
+	probes   []string // state-sensitive probe streams (subset of singles)
 	files    []*ModelFile
 }
 
@@ -83,6 +84,12 @@ func buildHistPool(seed uint64, big bool) *histPool {
 		}
 		hp.singles = append(hp.singles, add(Medium{Records: rs}, acc))
 	}
+	// state-sensitive probes (error streams included: their baseline is the same error)
+	for _, rs := range stateProbeStreams(NewRng(seed, "C08/stateprobe", 0)) {
+		id := add(Medium{Records: rs}, false)
+		hp.singles = append(hp.singles, id)
+		hp.probes = append(hp.probes, id)
+	}
 	// chains
 	for c := 0; c < 4 && len(hp.singles) >= 2; c++ {
 		r := NewRng(seed, "C08/chain", c)
@@ -90,6 +97,9 @@ func buildHistPool(seed uint64, big bool) *histPool {
 		acc := false
 		for k := r.Range(2, 3); k > 0; k-- {
 			id := hp.singles[r.Intn(len(hp.singles))]
+			if b := (&Scenario{Media: hp.media}).buildMedia()[id]; !plainDecodeOK(b) {
+				continue
+			}
 			ids = append(ids, id)
 			acc = acc || hp.accum[id]
 		}
@@ -114,7 +124,12 @@ func (p *propC08) Prepare(seed uint64, tier string) int {
 
 // genHistoryTasks draws a set of tasks over the pool; shared with C09.
 func genOp(r *Rng, hp *histPool, id int, decodes []int, tasks []Task) Task {
-	pickSingle := func() string { return hp.singles[r.Intn(len(hp.singles))] }
+	pickSingle := func() string {
+		if len(hp.probes) > 0 && r.Chance(1, 4) {
+			return hp.probes[r.Intn(len(hp.probes))]
+		}
+		return hp.singles[r.Intn(len(hp.singles))]
+	}
 	switch x := r.Intn(20); {
 	case x < 8:
 		return Task{ID: id, Call: "Decode", In: pickSingle(), Opts: optSets[r.Intn(len(optSets))], Read: genPlan(r, false, true)}
